@@ -696,7 +696,11 @@ class EnumConverter(Converter):
         if isinstance(real, float):
             return cmp == real or repr(cmp) == repr(real)
 
-        return cmp == real
+        try:
+            return cmp == real
+        except InvalidOperation:
+            # A signaling NaN decimal can't be compared
+            return False
 
 
 class DateTimeBase(Converter, abc.ABC):
